@@ -912,13 +912,15 @@ pub fn normalise_obs(p: &[Word]) -> Vec<Word> {
     }
     let (n, base) = (p[0], p[1]);
     let mut w = p[2..].to_vec();
-    if (0..=64).contains(&n) {
-        for i in 0..n as usize {
-            if let Some(a) = w.get_mut(2 * i) {
-                if *a != 0 {
-                    *a = a.wrapping_sub(base);
-                }
-            }
+    // the number of values actually returned (<= n: a range ends when the key overflows) follows from
+    // the first pair: the first value sits right behind the k [address, length] pairs
+    let k = match w.first() {
+        Some(a) if *a >= base && (*a - base) % 2 == 0 && (*a - base) / 2 <= n.clamp(0, 64) => ((*a - base) / 2) as usize,
+        _ => 0,
+    };
+    for i in 0..k {
+        if let Some(a) = w.get_mut(2 * i) {
+            *a = a.wrapping_sub(base);
         }
     }
     let mut out = vec![n];
